@@ -9,6 +9,7 @@ facts — not the allocation's value behaviour.
   leftovers  unallocated runes go to the pointer output, else the first non-OP_RETURN output, else they are burned; a cenotaph burns all
 
 NOT decided: that these compose to the documented allocation for every transaction (interaction of several edicts, split arithmetic)."""
+import re
 from ..core import where
 from ..facts import norm, origins
 from ..guards import all_guards, expand
@@ -106,7 +107,11 @@ def run(ctx):
         div = [x for x in b.calls if x.is_('re:Lot as std::ops::Div>::div$')]
         same_args = len(rem) == 1 and len(div) == 1 and fmt_desc(_d(b, rem[0].args[1])) == fmt_desc(_d(b, div[0].args[1])) and 'Vec::len' in fmt_desc(_d(b, div[0].args[1]))
         one = b.const_of(adds[0].args[1]) == 1 or any(o.kind == 'const' and o.const.get('v') == 1 for o in origins(b, adds[0].args[1]))
-        okp = len(lt) == 1 and lt[0][1] is True and same_args and one
+        # the left operand is the destination's rank (the enumerate index), not the output number it stands for
+        rank = len(lt) == 1 and bool(re.match(r'^Lt\(.*enumerate.*\.v:Some\.0\.0,', lt[0][0]))
+        okp = len(lt) == 1 and lt[0][1] is True and same_args and one and rank
+        if len(lt) == 1 and not rank:
+          msg = f'the extra unit is selected by {lt[0][0][:120]}: not the rank among the destinations'
       ctx.ob('R9.2', b.n, 'split: share + 1 exactly for i < balance % n, with the same n = destinations.len() as the share', okp, msg, where(b, c.line))
   # ---- R9.3 closure
   sub = [c for c in al.calls if c.is_('re:Lot as std::ops::SubAssign>::sub_assign$')]
